@@ -55,6 +55,24 @@ def handle (inp out : String) : String :=
         | .ok p => s!"0 {oh p.scheme} {oh p.user} {oh p.pass} {oh p.host} {p.port} {oh p.path} {oh p.query} {oh p.fragment}"
       verdict s!"splitfull:{cls out}" ms out none
     | none => "skip bad-hex"
+  | ["route", h1, h2] =>
+    match ofHex h1, ofHex h2 with
+    | some u1, some u2 =>
+      let kind (t : Target) : String := match t with
+        | .http .. => "H" | .tcp .. => "T" | .file .. => "F" | .refused _ => "H"      -- nothing set: the initial HTTP client
+      let l : Option Bytes := some "L".toUTF8.toList
+      let k : Option Bytes := some "K".toUTF8.toList
+      let t1 := setService u1 l k
+      let t2 := setService u2 l k
+      let ms := s!"{t1.status} {t2.status} S{kind t1} E{kind t2}"
+      let spec : Option String := match words out with
+        | [r1, r2, sa, ea] =>
+          if r1 == "0" && t1.status == 0 && sa != s!"S{kind t1}" then some s!"signing-request-goes-to-transport-{sa}-with-the-aggregator-set-to-a-{kind t1}-uri"
+          else if r2 == "0" && t2.status == 0 && ea != s!"E{kind t2}" then some s!"extending-request-goes-to-transport-{ea}-with-the-extender-set-to-a-{kind t2}-uri"
+          else none
+        | _ => none
+      verdict s!"route:{kind t1}{kind t2}" ms out spec
+    | _, _ => "skip bad-args"
   | ["svc2", _which, h1, h2, login, key] =>
     match ofHex h1, ofHex h2, argOpt login, argOpt key with
     | some u1, some u2, some l, some k =>
